@@ -627,24 +627,26 @@ sexp sexp_syntactic_closure_expr_op (sexp ctx, sexp self, sexp_sint_t n, sexp x)
   return (sexp_synclop(x) ? sexp_synclo_expr(x) : x);
 }
 
-static int sexp_contains_syntax_p_bound(sexp x, int depth) {
+static int sexp_contains_syntax_p_bound(sexp x, int depth, sexp_sint_t *budget) {
   int i;
   sexp ls1, ls2;
   if (sexp_synclop(x))
     return 1;
-  if (depth <= 0)
+  /* the depth alone doesn't bound the work on data sharing or
+     containing itself more than once, e.g. #0=#(#0# #0#) */
+  if (depth <= 0 || --(*budget) <= 0)
     return 0;
   if (sexp_pairp(x)) {
     for (i=0, ls1=x, ls2=x; sexp_pairp(ls1); ls1=sexp_cdr(ls1), ls2=(i++ & 1 ? sexp_cdr(ls2) : ls2)) {
-      if (sexp_contains_syntax_p_bound(sexp_car(ls1), depth-1))
+      if (sexp_contains_syntax_p_bound(sexp_car(ls1), depth-1, budget))
         return 1;
       if (i > 0 && (ls1 == ls2 || ls1 == sexp_car(ls2)))
         return 0; /* cycle, no synclo found, assume none */
     }
-    return sexp_contains_syntax_p_bound(ls1, depth-1);
+    return sexp_contains_syntax_p_bound(ls1, depth-1, budget);
   } else if (sexp_vectorp(x)) {
     for (i = 0; i < sexp_vector_length(x); ++i)
-      if (sexp_contains_syntax_p_bound(sexp_vector_ref(x, sexp_make_fixnum(i)), depth-1))
+      if (sexp_contains_syntax_p_bound(sexp_vector_ref(x, sexp_make_fixnum(i)), depth-1, budget))
         return 1;
   }
   return 0;
@@ -673,7 +675,8 @@ sexp sexp_strip_synclos_bound (sexp ctx, sexp x, int depth) {
 }
 
 sexp sexp_strip_synclos (sexp ctx, sexp self, sexp_sint_t n, sexp x) {
-  if (!sexp_contains_syntax_p_bound(x, SEXP_STRIP_SYNCLOS_BOUND))
+  sexp_sint_t budget = (sexp_sint_t)SEXP_STRIP_SYNCLOS_BOUND * 1000;
+  if (!sexp_contains_syntax_p_bound(x, SEXP_STRIP_SYNCLOS_BOUND, &budget))
     return x;
   return sexp_strip_synclos_bound(ctx, x, SEXP_STRIP_SYNCLOS_BOUND);
 }
